@@ -242,6 +242,47 @@ def differential(rep, tier, seed):
     rep.notes['differential_structural_histories'] = m
 
 
+def store_entry(rep):
+    """The third way of building an engine - Engine(store=composite.generate_store()) -
+    with a process marked parallel: same values as with the process serial, Engine.end()
+    without error, no worker left."""
+    import multiprocessing
+    from vivarium.core.engine import Engine
+    from vivarium.core.composer import Composite
+    pr.preload()
+    out = {}
+    for parallel in (False, True):
+        c = pr.comp('se', 1, parallel=parallel)
+        comp = Composite({'processes': {'agents': {'se': c['processes']}},
+                          'topology': {'agents': {'se': c['topology']}},
+                          'state': {'agents': {'se': c['initial_state']}}})
+        err, vals = None, []
+        before = set(p.pid for p in multiprocessing.active_children())
+        try:
+            with pr.Watch(60), contextlib.redirect_stdout(io.StringIO()):
+                eng = Engine(store=comp.generate_store(), display_info=False, emitter='null')
+                for _ in range(2):
+                    eng.update(1)
+                    vals.append(pr.plain_values(eng))
+                eng.end()
+        except pr.Hang:
+            err = 'hang'
+        except Exception as e:
+            err = '%s: %s' % (type(e).__name__, str(e)[:150])
+        left = [p for p in multiprocessing.active_children() if p.pid not in before]
+        for p in left:
+            p.terminate()
+            p.join(5)
+        out[parallel] = (err, vals, len(left))
+    rep.evaluations += 1
+    rep.nontrivial.add('store-entry')
+    if out[True] != out[False] or out[True][0] is not None or out[True][2]:
+        rep.violation({'kind': 'store-entry'},
+                      'Engine(store=generate_store()) with a process marked _parallel: '
+                      '(error, values after each update, workers left) = %r; with the process '
+                      'serial %r' % (out[True], out[False]), {})
+
+
 def check(prop, tier, seed):
     rep = Report(prop, tier, seed)
     rep.rule = ('TLC: exhaustive model checking of Parallel.tla (2-3 workers, 4-5 commands) incl. '
@@ -259,6 +300,7 @@ def check(prop, tier, seed):
         model_check(rep, tier, scratch)
         protocol(rep, tier, scratch)
     differential(rep, tier, seed)
+    rep.guard(store_entry, rep, what='engine from a store')
     return rep.finish()
 
 
